@@ -351,6 +351,7 @@ pub fn check_cc14_history(ops: &[Op], stats: &mut Cc14Stats) -> Result<(), Fail>
                 if let (Some(g), Some(w)) = (got, want) {
                     let built = ControlChange14BitMessage::new(h_ch(w.0), h_cn(w.1), h_u14(w.2));
                     ensure!(g == built, "history/report_not_equal_to_constructed", "op #{}: {:?} != {:?}", i, g, built);
+                    reencode_cc14(&g)?;
                     stats.reports += 1;
                     if last_was_report_on[w.0 as usize] {
                         stats.relsb = true;
